@@ -1169,8 +1169,9 @@ def sub_reuse(case):
     z0 = int(case['z'], 16)
     d2 = (d * 7 + 11) % (N - 1) + 1
     zs = [z0, z0 ^ 1, int.from_bytes(hashlib.sha256(b'reuse' + case['z'].encode()).digest(), 'big')]
-    P = [secp.pub(d), secp.pub(d2)]
-    libP = [Key(secp.ser(P[0]).hex()), Key(secp.ser(P[1]).hex())]
+    # key 2 is the NEGATED signer key: same x, the other y (its compressed form differs in the prefix byte only)
+    P = [secp.pub(d), secp.pub(d2), secp.pub(N - d)]
+    libP = [Key(secp.ser(P[0]).hex()), Key(secp.ser(P[1]).hex()), Key(secp.ser(P[2]).hex())]
     k = secp.rfc6979_k(d, _b32(z0))
     r, s_ = secp.ecdsa_sign_raw(d, z0, k)
     if s_ > N // 2:
@@ -1356,7 +1357,8 @@ def run(ctx):
         bases += [{'d': _h(9), 'k': _h(KHALF), 's': _h(1 << (8 * i))} for i in range(1, 31, 3)]
     if want('reuse'):
         import itertools
-        evs = [[zi, ki, f] for zi in (0, 1, 2) for ki in (0, 1) for f in ('method', 'function')]
+        evs = [[zi, ki, f] for zi in (0, 1, 2) for ki in (0, 1) for f in ('method', 'function')] + \
+            [[0, 2, 'method'], [0, 2, 'function']]
         L = 2 if q else 3
         hists = [list(h) for l in range(1, L + 1) for h in itertools.product(evs, repeat=l)]
         rcases = []
